@@ -553,13 +553,16 @@ pub fn run(run: &Run) {
     let thorough = run.thorough();
     start_watchdog(if thorough { 20.0 } else { 10.0 });
     let (mut states, mut trans) = (0u64, 0u64);
+    let only = std::env::var("VCHECK_C03_ONLY").unwrap_or_default();
+    let want = |k: &str| only.is_empty() || only == k;
 
     // (a) token graph
-    {
+    if want("a") {
         let g = DG { tokens: build_tokens(thorough), chunk_sizes: vec![0, 1, 2, 128, 0x7FFF_FFFF, 0x8000_0000], errors: AtomicU64::new(0), messages: AtomicU64::new(0) };
         let depth = 3;
         let opts = BfsOptions { max_depth: Some(depth), max_states: Some(if thorough { 3_000_000 } else { 400_000 }), ..Default::default() };
         let (stats, viols) = bfs(&g, vec![DSt { de: ChunkDeserializer::new(), received: 0 }], &opts);
+        run.sample_paths("deserializer token graph", &stats.sample_paths);
         states += stats.states;
         trans += stats.transitions;
         for v in viols {
@@ -572,7 +575,7 @@ pub fn run(run: &Run) {
         run.count("a_token_graph_messages_completed", g.messages.load(Ordering::Relaxed));
     }
     // (a') every short byte string, whole and bytewise
-    {
+    if want("a2") {
         let maxlen = if thorough { 3 } else { 2 };
         let total: u64 = (1..=maxlen).map(|l| 256u64.pow(l)).sum();
         let n = AtomicU64::new(0);
@@ -606,7 +609,7 @@ pub fn run(run: &Run) {
         trans += n.load(Ordering::Relaxed);
     }
     // (a'') strings over a 12-symbol byte menu
-    {
+    if want("a3") {
         let menu: [u8; 12] = [0x00, 0x01, 0x02, 0x03, 0x43, 0x83, 0xC3, 0xFF, 0x7F, 0x80, 0x08, 0x14];
         let maxlen: u32 = if thorough { 6 } else { 5 };
         let total: u64 = (1..=maxlen).map(|l| 12u64.pow(l)).sum();
@@ -634,7 +637,7 @@ pub fn run(run: &Run) {
     }
 
     // (b) message decoder
-    {
+    if want("b") {
         let n = AtomicU64::new(0);
         let toks = amf_tokens();
         let maxtok = if thorough { 4 } else { 3 };
@@ -708,10 +711,11 @@ pub fn run(run: &Run) {
     }
 
     // (c) sessions
-    {
+    if want("c") {
         let g = SG { menu: malformed_menu(true, thorough), probes: AtomicU64::new(0), errs: AtomicU64::new(0) };
         let opts = BfsOptions { max_depth: Some(if thorough { 8 } else { 6 }), max_states: Some(if thorough { 20_000 } else { 1_500 }), ..Default::default() };
         let (stats, viols) = bfs(&g, vec![c09::fresh_state()], &opts);
+        run.sample_paths("server session states probed with the malformed menu", &stats.sample_paths);
         states += stats.states;
         trans += stats.transitions + g.probes.load(Ordering::Relaxed);
         for v in viols {
@@ -724,6 +728,7 @@ pub fn run(run: &Run) {
         let g = CG { menu: malformed_menu(false, thorough), probes: AtomicU64::new(0), errs: AtomicU64::new(0) };
         let opts = BfsOptions { max_depth: Some(if thorough { 10 } else { 7 }), max_states: Some(if thorough { 20_000 } else { 1_500 }), ..Default::default() };
         let (stats, viols) = bfs(&g, vec![c10::fresh_state()], &opts);
+        run.sample_paths("client session states probed with the malformed menu", &stats.sample_paths);
         states += stats.states;
         trans += stats.transitions + g.probes.load(Ordering::Relaxed);
         for v in viols {
@@ -735,7 +740,7 @@ pub fn run(run: &Run) {
     }
 
     // (d) handshake
-    {
+    if want("d") {
         let n = AtomicU64::new(0);
         let roles = [PeerType::Server, PeerType::Client];
         (0..2usize).into_par_iter().for_each(|ri| {
